@@ -63,6 +63,7 @@ func x2jSpecs() []wrapSpec {
 
 func x2jwSpecs() []wrapSpec {
 	return []wrapSpec{
+		{"x2jw.CastNanInf", []string{"mxj.CastNanInf"}, false},
 		{"x2jw.DocToJson", []string{"mxj.NewMapXml", "mxj.Map.Json"}, false},
 		{"x2jw.DocToJsonIndent", []string{"mxj.NewMapXml", "mxj.Map.JsonIndent"}, false},
 		{"x2jw.DocToMap", []string{"mxj.NewMapXml"}, false},
